@@ -492,3 +492,43 @@ def c01(tier, seed):
                            "exit_by_thread_exit", "eventual_waits", "stacked_schedulers", "programs_with_user_scheduler",
                            "units_run_by_user_scheduler", "units_checked_at_xstream_join", "primary_scheduler_replaced"]
     return c
+
+
+@prop("C03")
+def c03(tier, seed):
+    c = Check("C03", tier, seed)
+    q = tier == "quick"
+    c.rule = ("each case = one join trial drawn from caller kind {ULT same stream, ULT other stream, tasklet, primary ULT, "
+              "external thread} x target kind {ULT, tasklet} x target behaviour {return, ABT_self_exit, ABT_thread_exit, "
+              "ABT_self_exit_to, cancelled before start, cancelled while running, blocks on an eventual first} x join issued "
+              "{before the target starts (its stream is kept busy), while it runs (it spins until the joiner is inside), "
+              "after termination} x API {join+free, free, join_many/free_many}; distinct = distinct legal combinations seen "
+              "(counted by the harness); plus the forest programs of C01 where every creator joins its named children")
+    c.assumptions = ["'joiner inside join' is approximated by a flag raised immediately before the call; delay points after "
+                     "the join request widen the remaining window"]
+    profiles = [hammer(*JOIN_HAMMER), "uniform", "off", "heavy"]
+    for i, s in enumerate(seeds(seed, 6 if q else 48)):
+        args = ["--seed", s, "--mode", "join", "--trials", 700 if q else 6000, "--delay", profiles[i % 4],
+                "--watchdog", 90 if q else 900]
+        if i % 3 == 2:
+            args += ["--squeeze", 2]
+        c.add(Run("h_units", "mon", args, weight=4, tag="join%d" % i))
+    for i, s in enumerate(seeds(seed, 1 if q else 5, salt=1)):
+        c.add(Run("h_units", "asan", ["--seed", s, "--mode", "join", "--trials", 300, "--delay", profiles[i % 4],
+                                      "--watchdog", 90], weight=4, tag="asan%d" % i))
+    for i, s in enumerate(seeds(seed, 1 if q else 5, salt=2)):
+        c.add(Run("h_units", "tsan", ["--seed", s, "--mode", "join", "--trials", 120, "--delay", profiles[i % 4],
+                                      "--watchdog", 90], weight=4, tag="tsan%d" % i))
+    for i, s in enumerate(seeds(seed, 2 if q else 12, salt=3)):
+        c.add(Run("h_units", "mon", ["--seed", s, "--mode", "forest", "--programs", 12 if q else 40, "--max-units", 500,
+                                     "--delay", profiles[i % 4], "--watchdog", 60 if q else 400], weight=6,
+                  tag="forest%d" % i))
+    c.nontrivial = lambda r: True
+    c.required_points = ["GET_JOINER_NONE", "GET_JOINER_READY", "GET_JOINER_WAITED", "JOIN_YIELD_LOOP", "JOIN_SUSPEND",
+                         "JOIN_FUTEX", "EXIT_FUTEX_JOINER", "EXIT_JUMP_TO_JOINER", "EXIT_PUSH_JOINER",
+                         "JOIN_ALREADY_TERMINATED", "SCHEDULE_CANCELLED"]
+    c.required_counters = ["join_trials", "join_many_trials", "caller_ult-same-stream", "caller_ult-other-stream",
+                           "caller_tasklet", "caller_primary", "caller_external", "target_exit_to",
+                           "target_cancel-before-start", "target_cancel-while-running", "target_block-first",
+                           "join_issued_before-start", "join_issued_while-running", "join_issued_after-termination"]
+    return c
